@@ -161,6 +161,9 @@ func vC15Routes(t *testing.T, out *vEmitter) {
 		{regex: []string{"^/static/", `\.(css|js)$`}},
 		{regex: []string{"/health"}, routes: []string{"OPTIONS=^/api/", "^/open$"}},
 		{routes: []string{"GET=^/a=b$", "PUT=^/x\\?y"}},
+		// every kind of rule directly after every other kind (negated, method-qualified, bare regular expression)
+		{routes: []string{"GET!=^/api", "^/api/v1$", "POST=^/hook/", "!=^/private", "^/open$", "delete!=^/tmp/", "^/health$"}},
+		{routes: []string{"^/open$", "!=^/a", "^/x$"}},
 	}
 	methods := []string{"GET", "POST", "OPTIONS", "DELETE", "get", "PUT"}
 	paths := []string{"/", "/public", "/public/x", "/private", "/private/public", "/admin", "/admin/x", "/static/a.css", "/x/a.css", "/a.js",
